@@ -16,7 +16,7 @@ OUT=/tmp/benignout.$$; mkdir -p $OUT
 cleanup() { git -C /repo worktree remove --force $WT 2>/dev/null; rm -rf $OUT /tmp/benignrun.$$; }
 trap cleanup EXIT
 git -C $WT apply $DIFF || { echo "patch does not apply"; exit 3; }
-( cd $WT/v4 && GOCACHE=$SCRATCH_CACHE go build ./... && go test -vet=off -count=1 ./... 2>&1 | tail -6 ) > /tmp/benignrun.$$ 2>&1
+( cd $WT/v4 && export GOCACHE=$SCRATCH_CACHE && go build ./... && go test -vet=off -count=1 ./... 2>&1 | tail -6 ) > /tmp/benignrun.$$ 2>&1
 grep -q "FAIL\|cannot\|error" /tmp/benignrun.$$ && { echo "suite with change: FAIL"; cat /tmp/benignrun.$$; exit 3; } || echo "suite with change: PASS"
 for id in $IDS; do
   cd /verif && VERIF_REPO=$WT/v4 VERIF_OUT=$OUT timeout 1800 ./run.sh $id ${TIER:-quick} > /tmp/benignrun.$$ 2>&1; rc=$?
